@@ -15,8 +15,26 @@ NAN = float('nan')
 EPS = 2.0 ** -52
 UNDERFLOW_DSQ = 2.0 ** -960
 KEY_UNDERFLOW = 'C11-steihaug-curvature-test-on-underflowed-dBd'
+# Open findings (known-findings.json):
+#  * zero gradient (the property says "for every … gradient"): SteihaugCG::solve computes 0/0 in
+#    get_boundaries_intersections and returns a NaN step and a NaN value; NewtonTRDirection::apply inherits it when the
+#    reduced gradient r_J is zero.  NaN is neither "a step of norm ≤ radius" nor "a model value ≤ 0".
+KEY_G0 = 'C11-steihaug-zero-gradient-returns-nan'
+#  * the iteration cap: SteihaugCGParams::max_iter_factor is documented as "Limit the number of CG iterations to
+#    ⌊n · max_iter_factor⌉"; the loop leaves on `i > max_iter` tested after the (i+1)-th iteration, i.e. performs up to
+#    ⌊n · max_iter_factor⌉ + 2 iterations.
+KEY_CAP = 'C11-steihaug-iteration-cap-two-more-than-documented'
 STATS = {'underflow_finding': 0, 'g0_nan': 0, 'g0_finite': 0, 'n0': 0, 'interior': 0, 'interior_by_cap': 0, 'boundary': 0,
-         'boundary_after_iter0': 0, 'negcurv': 0, 'iters_ge_3': 0, 'nan_nonzero_g': 0, 'ntr': 0, 'ntr_exc': 0}
+         'boundary_after_iter0': 0, 'negcurv': 0, 'iters_ge_3': 0, 'nan_nonzero_g': 0, 'ntr': 0, 'ntr_exc': 0,
+         'iterations_above_documented_cap': 0, 'ntr_rJ0_nan': 0,
+         # the signed-zero class of get_boundaries_intersections: z = 0 and every gradient component ≥ +0 give
+         # b = 2 z·d = −0.0, std::copysign(√disc, b) is then NEGATIVE and (ta, tb) come out in descending order —
+         # only the final fmin / fmax restores "sorted from low to high"
+         'first_iteration_boundary_b_negative_zero': 0, 'first_iteration_boundary_b_positive_zero': 0}
+# classes every run must exercise (properties.jsonl C11 `quantifier`); a missing class is a broken tie
+REQUIRED = ['g0_nan_or_finite', 'ntr_rJ0', 'n0', 'interior', 'interior_by_cap', 'boundary', 'boundary_after_iter0', 'negcurv',
+            'iters_ge_3', 'ntr', 'ntr_exc', 'ntr_full_model_checked', 'ntr_coupling_nonzero',
+            'first_iteration_boundary_b_negative_zero', 'first_iteration_boundary_b_positive_zero']
 
 
 # ---------------------------------------------------------------- input generation
@@ -98,8 +116,21 @@ def gen_cg(rng):
             g[0] = 1.0
     sc = rng.choice([1.0, 1.0, 1.0, 2.0 ** rng.randint(-12, 12)])
     g = [a * sc for a in g]
+    # the signed-zero class of get_boundaries_intersections, deliberately: every gradient component ≥ +0 (then
+    # b = 2·z·d = −0.0 at z = 0 and std::copysign flips the order of the two roots) — or every component ≤ −0 (b = +0.0) —
+    # with a radius shorter than the first CG step, so that the very first iteration asks for the boundary points
+    szc = n > 0 and any(g) and rng.random() < 0.10
+    if szc:
+        sg = rng.choice([1.0, 1.0, -1.0])
+        g = [math.copysign(abs(a), sg) for a in g]
     rr = rng.random()
-    if rr < 0.45:
+    if szc:
+        gn = math.sqrt(sum(a * a for a in g)) or 1.0
+        bn = max([abs(a) for row in B for a in row] + [0.0]) or 1.0
+        Δ = (gn / bn) * 2.0 ** -rng.randint(1, 8)
+        if not (1e-200 < Δ < 1e200):
+            Δ = 2.0 ** -20
+    elif rr < 0.45:
         Δ = 2.0 ** rng.randint(-30, 30)
     elif rr < 0.55:
         Δ = abs(rng.gauss(0, 1)) * 10 ** rng.uniform(-6, 6) + 1e-9
@@ -165,6 +196,14 @@ def fixed_ops():
         # known finding: tol_max = 0, max_iter_factor = 10, PD 1×1 B — the curvature underflows after 11 iterations
         'cg 1 bf6d168356294113 3f47b6b34668f8bb 4063a0487e9bdb95 3ff0000000000000 3fe0000000000000 '
         '0000000000000000 4024000000000000',
+        # Newton-TR with a zero reduced gradient: p = (1, 0), ∇²ψ = diag(2, 3), J = {1}, γ = 1, hessian_vec_factor = 1
+        # (r_J = −p_J/γ + (H q_K)_J = 0 + 0) — and with hessian_vec_factor = 0
+        f'ntr {vec2p([1.0, 0.0])} {f2h(2.0)} {f2h(0.0)} {f2h(0.0)} {f2h(3.0)} 1 1 {f2h(1.0)} {f2h(1.0)} {f2h(1.0)} '
+        f'{f2h(1.0)} {f2h(0.5)} {f2h(INF)} {f2h(1.0)}',
+        f'ntr {vec2p([1.0, 0.0])} {f2h(2.0)} {f2h(1.0)} {f2h(1.0)} {f2h(3.0)} 1 1 {f2h(1.0)} {f2h(0.0)} {f2h(1.0)} '
+        f'{f2h(1.0)} {f2h(0.5)} {f2h(INF)} {f2h(1.0)}',
+        # the documented iteration cap: n = 1, B = [2], g = (1), radius 4, zero tolerance, max_iter_factor = 0
+        f'cg 1 {f2h(1.0)} {f2h(2.0)} {f2h(4.0)} {f2h(0.0)} {f2h(0.5)} {f2h(INF)} {f2h(0.0)}',
     ]
     return ops
 
@@ -230,15 +269,13 @@ def monitor_cg(t, o, st):
         return None if val == 0 else f'n = 0 returned value {val!r}'
     g0 = not any(g)
     if g0:
-        # Forced hypothesis g ≠ 0 of the theorems: the code divides 0/0 in get_boundaries_intersections.
-        # Documented behaviour: NaN step and NaN value (PANTR counts it as a direction failure).
-        if all(a != a for a in s) and val != val:
-            STATS['g0_nan'] += 1
-            return None
-        STATS['g0_finite'] += 1
+        # Zero gradient is in "all g".  A NaN step / value violates "step of norm ≤ radius … model value ≤ 0"
+        # (open finding KEY_G0); a finite answer is checked like any other.
         if not (finite(s) and math.isfinite(val)):
-            return f'g = 0: partly non-finite result value={val!r} step={s!r}'
-        # a finite answer at g = 0 must still be a correct one: fall through to the checks
+            STATS['g0_nan'] += 1
+            return (f'zero gradient (n = {n}): SteihaugCG::solve returned value={val!r} step={s!r} — not a step of norm '
+                    f'≤ radius with model value ≤ 0 (the origin, value 0, is one)', KEY_G0)
+        STATS['g0_finite'] += 1
     elif not (finite(s) and math.isfinite(val)):
         STATS['nan_nonzero_g'] += 1
         return f'non-finite result for g ≠ 0: value={val!r} step={s!r} (‖g‖∞={max(abs(a) for a in g)!r}, Δ={Δ!r})'
@@ -284,6 +321,12 @@ def monitor_cg(t, o, st):
     else:
         STATS['interior'] += 1
     STATS['iters_ge_3'] += nBd >= 3
+    if on_bdry and nBd == 1 and gg > 0:
+        # decided from the op line: at z = 0 each product 0·d_i = 0·(−g_i) is −0.0 iff g_i has a clear sign bit
+        if all(math.copysign(1.0, a) > 0 for a in g):
+            STATS['first_iteration_boundary_b_negative_zero'] += 1
+        elif all(math.copysign(1.0, a) < 0 for a in g):
+            STATS['first_iteration_boundary_b_positive_zero'] += 1
     # (5) negative curvature encountered ⇒ boundary point
     if neg_seen or nEval == 2:
         STATS['negcurv'] += 1
@@ -292,21 +335,27 @@ def monitor_cg(t, o, st):
                         f'is strictly inside: ‖s‖/Δ = {math.sqrt(float(ss / (D * D)))!r}')
     if gg > 0 and gBg < 0 and not on_bdry and -gBg > Fr(64 * n) * Fr(EPS) * sum(abs(G[i]) * sum(abs(B[i][j]) * abs(G[j]) for j in range(n)) for i in range(n)):
         return f'gᵀBg = {float(gBg)!r} < 0 (negative curvature along the first direction) but the step is interior'
-    # (4) interior ⇒ residual rule or iteration cap
+    # (4) interior ⇒ residual rule or iteration cap.  The cap is the DOCUMENTED one (SteihaugCGParams::max_iter_factor:
+    # "Limit the number of CG iterations to ⌊n · max_iter_factor⌉", round to nearest = std::round), counted in Hessian
+    # products hess_prod(d, Bd) as observed by the harness' callback — not the code's own test `i > max_iter`.
+    max_iter = int(math.floor(n * mf + 0.5))
     if not on_bdry and gg > 0:
-        it = nBd - 1                                    # value of `i` at the exit
-        max_iter = int(math.floor(n * mf + 0.5))
-        cap = it > max_iter
+        cap = nBd >= max(1, max_iter)                   # the documented limit was reached
         STATS['interior_by_cap'] += cap
         R = [G[i] + BS[i] for i in range(n)]
         rr = dotF(R, R)
         gn = math.sqrt(float(gg))
         tol = min(tm, ts * gn * min(tr, math.sqrt(gn)))
-        slack = Fr(64 * (n + 2) * (it + 2)) * Fr(EPS) * (sum(abs(a) for a in G) + sum(absB))
+        slack = Fr(64 * (n + 2) * (nBd + 1)) * Fr(EPS) * (sum(abs(a) for a in G) + sum(absB))
         lim = Fr(tol) * (1 + Fr(1, 10 ** 9)) + slack
         if not cap and not (rr <= lim * lim):
-            return (f'interior step (‖s‖/Δ = {math.sqrt(float(ss / (D * D))):.6g}) after {it} iterations ≤ cap {max_iter}, '
-                    f'but residual ‖g + Bs‖ = {math.sqrt(float(rr))!r} ≥ tolerance {tol!r}')
+            return (f'interior step (‖s‖/Δ = {math.sqrt(float(ss / (D * D))):.6g}) after {nBd} CG iterations < documented cap '
+                    f'{max_iter}, but residual ‖g + Bs‖ = {math.sqrt(float(rr))!r} ≥ tolerance {tol!r}')
+    # (6) the documented cap itself (at least one iteration is needed to produce any step)
+    if nBd > max(1, max_iter):
+        STATS['iterations_above_documented_cap'] += 1
+        return (f'{nBd} CG iterations (Hessian products with the search direction), documented limit '
+                f'⌊n·max_iter_factor⌉ = ⌊{n}·{mf!r}⌉ = {max_iter}', KEY_CAP)
     return None
 
 
@@ -339,8 +388,14 @@ def monitor_ntr(t, o, st, out):
     rJ = [-P_[j] / Fr(γ) + (Fr(hvf) * Hq0[j] if hvf != 0 else 0) for j in J]
     if not (finite(q) and math.isfinite(val)):
         if not any(rJ):
-            return None        # zero reduced gradient: the documented NaN answer of Steihaug at g = 0
+            # zero reduced gradient r_J (e.g. p_J = 0 with no coupling): Steihaug's NaN answer at g = 0 is written
+            # into q_J and returned — open finding KEY_G0 ("for every … gradient")
+            STATS['ntr_rJ0_nan'] += 1
+            return (f'Newton-TR with zero reduced gradient r_J (|J| = {nJ}) returned value={val!r} q={q!r}: q_J = 0 with '
+                    f'value −‖p_K‖²/(2γ) is a valid answer', KEY_G0)
         return f'non-finite Newton-TR result value={val!r} q={q!r}'
+    if J and not any(rJ):
+        STATS['ntr_rJ0_finite'] = STATS.get('ntr_rJ0_finite', 0) + 1
     QJ = [Fr(a) for a in qJ]
     D = Fr(radius)
     tol1 = Fr(32 * (nJ + 4)) * Fr(EPS)
@@ -412,9 +467,18 @@ def nontrivial(op, out):
 def extra_stage(rep, broken, exe, tier):
     rep.note('monitor classification of the real runs: ' + ', '.join(f'{k}={v}' for k, v in STATS.items()))
     rep.cov['c11_stats'] = dict(STATS)
-    rep.note(f'excluded point g = 0 (n ≥ 1) on the real code: {STATS["g0_nan"]} runs returned NaN step + NaN value '
-             f'(documented: 0/0 in get_boundaries_intersections; PANTR treats it as a direction failure), '
-             f'{STATS["g0_finite"]} returned a finite answer (then checked like any other)')
+    rep.note(f'zero gradient (n ≥ 1) on the real code: {STATS["g0_nan"]} runs returned a non-finite step / value (open finding '
+             f'{KEY_G0}), {STATS["g0_finite"]} returned a finite answer (checked like any other); Newton-TR with r_J = 0: '
+             f'{STATS["ntr_rJ0_nan"]} non-finite')
+    rep.note(f'{STATS["iterations_above_documented_cap"]} runs made more CG iterations than the documented ⌊n·max_iter_factor⌉ '
+             f'(open finding {KEY_CAP})')
+    have = dict(STATS)
+    have['g0_nan_or_finite'] = STATS['g0_nan'] + STATS['g0_finite']
+    have['ntr_rJ0'] = STATS['ntr_rJ0_nan'] + STATS.get('ntr_rJ0_finite', 0)
+    missing = [k for k in REQUIRED if not have.get(k)]
+    rep.cov['c11_required_classes_missing'] = missing
+    if missing and exe:
+        broken.append('required coverage: the run never exercised ' + ', '.join(missing))
 
 
 HARNESS_SOURCES = [os.path.join(C.VERIF, 'harness', 'c11.cpp')] + C.repo_lib_sources(
@@ -472,7 +536,7 @@ if __name__ == '__main__':
             'not modelled: NewtonTRDirection finite_diff = true branch',
         ],
         assumptions=['Eigen reductions are left folds under the harness flags (confirmed by the bit-exact run)',
-                     'g ≠ 0 in the theorems (g = 0 returns NaN on the real code — documented, run by the monitor)',
+                     'g ≠ 0 in the theorems: at g = 0 the real code returns NaN (open finding C11-steihaug-zero-gradient-returns-nan, run by the monitor on every run)',
                      'max_iter_factor ≥ 0 and n·max_iter_factor within int64 (static_cast of the rounded value)'],
         rule='fixed corner cases (g = 0 for n = 1, 2; n = 0; exact Newton / boundary / tie on the radius; the op of '
              'the known underflow finding) + seeded random: n ∈ {0..8}; B ∈ {PD, PSD-singular, indefinite, zero, diagonal, '
